@@ -1256,8 +1256,10 @@ class BufferedWriter(IndexWriter):
     def reader(self, **kwargs):
         from whoosh.reading import MultiReader
 
-        reader = self.writer.reader()
+        # (both under the lock: a commit in another thread - the timer's -
+        # moves the buffered documents from the one to the other)
         with self.lock:
+            reader = self.writer.reader()
             ramreader = self._get_ram_reader()
 
         # If there are in-memory docs, combine the readers
@@ -1281,6 +1283,10 @@ class BufferedWriter(IndexWriter):
         if self.period:
             self.timer.cancel()
 
+        # The lock is held until the new writer exists: a call from another
+        # thread (the timer thread runs this method) must not reach the writer
+        # while it is committing or closed - a deletion handed to it then is
+        # lost or raises, a second commit would lose its documents
         with self.lock:
             ramreader = self._get_ram_reader()
             self._make_ram_index()
@@ -1289,20 +1295,21 @@ class BufferedWriter(IndexWriter):
             bufferedcount = self.bufferedcount
             self.bufferedcount = 0
 
-        if bufferedcount:
-            self.writer.add_reader(ramreader)
-        self.writer.commit(**self.commitargs)
+            if bufferedcount:
+                self.writer.add_reader(ramreader)
+            self.writer.commit(**self.commitargs)
 
-        if restart:
-            self.writer = self.index.writer(**self.writerargs)
-            if self.period:
-                self.timer = threading.Timer(self.period, self.commit)
-                self.timer.start()
+            if restart:
+                self.writer = self.index.writer(**self.writerargs)
+                if self.period:
+                    self.timer = threading.Timer(self.period, self.commit)
+                    self.timer.start()
 
     def add_reader(self, reader):
         # Pass through to the underlying on-disk index
-        self.writer.add_reader(reader)
-        self.commit()
+        with self.lock:
+            self.writer.add_reader(reader)
+            self.commit()
 
     def add_document(self, **fields):
         with self.lock:
